@@ -249,6 +249,9 @@ func copyHeap(h map[string]Term) map[string]Term {
 
 func (x *Exec) applyContract(st *State, spec *FuncSpec, fn *ssa.Function, args []Val, ret ssa.Value, site ssa.Instruction) {
 	x.usedSpecs[spec.Key] = true
+	if !spec.HasMod {
+		unsupp("contract of %s has no modifies clause but is used at a call site", spec.Key)
+	}
 	for _, a := range args {
 		if _, isPtr := types.Unalias(a.Typ).Underlying().(*types.Pointer); isPtr && a.Idx != nil {
 			unsupp("slice-element pointer passed to contracted function %s", spec.Key)
@@ -308,6 +311,10 @@ func (x *Exec) applyContract(st *State, spec *FuncSpec, fn *ssa.Function, args [
 	bindResults(penv, res)
 	for _, e := range spec.Ensures {
 		st.assume(penv.evalBool(e.X))
+	}
+	for _, e := range spec.TrustedEnsures {
+		st.assume(penv.evalBool(e.X))
+		x.assumeNote("A-trusted-clause: " + spec.Key + " trusted_ensures " + e.Text)
 	}
 	oenv := penv.inOld()
 	for _, b := range spec.Behaviours {
@@ -441,6 +448,7 @@ type modLocs struct {
 	precise map[string][]Term // array name -> allowed indices
 	coarse  map[string]bool   // array name fully havoced
 	wild    []string          // name prefixes fully havoced
+	sorts   map[string]Sort
 }
 
 func (ml modLocs) isCoarse(name string) bool {
@@ -456,7 +464,7 @@ func (ml modLocs) isCoarse(name string) bool {
 }
 
 func (x *Exec) resolveModifies(st *State, spec *FuncSpec, env *Env) modLocs {
-	ml := modLocs{precise: map[string][]Term{}, coarse: map[string]bool{}}
+	ml := modLocs{precise: map[string][]Term{}, coarse: map[string]bool{}, sorts: map[string]Sort{}}
 	oenv := env
 	for _, mi := range spec.Modifies {
 		switch {
@@ -482,12 +490,12 @@ func (x *Exec) resolveModifies(st *State, spec *FuncSpec, env *Env) modLocs {
 				}
 				continue
 			}
-			if strings.HasPrefix(raw, "ghost.") || strings.HasPrefix(raw, "once:") || strings.HasPrefix(raw, "chan.") {
-				ml.coarse[raw] = true
-				continue
-			}
 			if strings.HasSuffix(raw, "*") {
 				ml.wild = append(ml.wild, strings.TrimSuffix(raw, "*"))
+				continue
+			}
+			if strings.HasPrefix(raw, "ghost.") || strings.HasPrefix(raw, "once:") || strings.HasPrefix(raw, "chan.") {
+				ml.coarse[raw] = true
 				continue
 			}
 			// T.field
@@ -529,6 +537,8 @@ func (x *Exec) resolveModifies(st *State, spec *FuncSpec, env *Env) modLocs {
 			ml.precise["mapcard:"+n] = append(ml.precise["mapcard:"+n], m.T())
 			for _, c := range comps(mt.Elem()) {
 				ml.precise["mapval:"+n+c.Suffix] = append(ml.precise["mapval:"+n+c.Suffix], m.T())
+				ml.sorts["mapval:"+n+c.Suffix] = ArrSort(ArrSort(c.Sort))
+				x.noteLeaf("mapval:"+n+c.Suffix, c)
 			}
 		default:
 			p := oenv.evalLoc(mi.X)
@@ -544,6 +554,8 @@ func (x *Exec) resolveModifies(st *State, spec *FuncSpec, env *Env) modLocs {
 			for _, c := range comps(elem) {
 				n := p.prefix() + c.Suffix
 				ml.precise[n] = append(ml.precise[n], p.T())
+				ml.sorts[n] = ArrSort(c.Sort)
+				x.noteLeaf(n, c)
 			}
 			if g, ok := x.eng.ghostFieldByPrefix(p.prefix()); ok {
 				_ = g
@@ -594,6 +606,9 @@ func (x *Exec) havocModifies(st *State, spec *FuncSpec, env *Env) {
 		s, ok := x.arraySort(st, name)
 		if !ok {
 			s = x.eng.guessArraySort(name)
+			if s == "" {
+				s = ml.sorts[name]
+			}
 			if s == "" {
 				sfail("modifies: cannot determine sort of %s", name)
 			}
